@@ -12,6 +12,7 @@ func c11atomic(c *Ctx) {
 	r := c.R
 	t := newTransport(c)
 	t.classify("C11.atomic")
+	t.deadlineUnderLock("C11.atomic")
 	wr := c.fn("(*Conn).write")
 	for _, fn := range c.P.FuncList {
 		if !t.sites[fn] || t.unprot[fn] {
